@@ -84,49 +84,63 @@ fn part_a(mask: usize) -> String {
 
 const MODES: [&str; 4] = ["record fetched from the identity server", "record from the cache, server unreachable", "record from an out-of-date cache, server unreachable", "user unknown to the identity server"];
 
-/// part B: resolver level. item = (list index, token index, mode)
-fn part_b(dir: &std::path::Path, lists: &[Vec<String>], item: usize) -> String {
+/// part B: resolver level, one machine per allowed list; every (token, mode) case runs on it
+/// with the cache emptied first. Returns one two-letter answer per case, comma separated.
+fn part_b(dir: &std::path::Path, lists: &[Vec<String>], li: usize, wanted: &dyn Fn(usize) -> bool) -> String {
     let toks = tokens();
     let nt = toks.len();
-    let mode = item % MODES.len();
-    let ti = (item / MODES.len()) % nt;
-    let li = item / MODES.len() / nt;
     let list = &lists[li];
-    let t = &toks[ti];
-    let db = dir.join(format!("c45-{item}.sqlite"));
+    let db = dir.join(format!("c45-b-{li}.sqlite"));
     let dbs = db.to_string_lossy().to_string();
     let r = rt().block_on(async {
-        let peer = Peer::start("irrelevant", if mode == 3 { None } else { Some(t.clone()) })?;
+        let peer = Peer::start("irrelevant", None)?;
         let m = edge::machine(&dbs, &peer.addr, list).await?;
-        let now = std::time::SystemTime::now().duration_since(std::time::UNIX_EPOCH).map(|d| d.as_secs()).unwrap_or(0);
-        match mode {
-            1 => {
-                edge::plant_row(&dbs, &UserToken::from(t.clone()), now + 300).await?;
-                peer.with(|s| s.up = false);
-            }
-            2 => {
-                edge::plant_row(&dbs, &UserToken::from(t.clone()), 1).await?;
-                peer.with(|s| s.up = false);
-            }
-            _ => {}
-        }
         let info = PamServiceInfo { service: "sshd".to_string(), tty: Some("/dev/pts/0".to_string()), rhost: None };
-        let r = m.resolver.pam_account_allowed(USER, &info).await;
-        let fetched = peer.with(|s| s.log.iter().any(|l| l.contains("/_unix/_token") && !l.starts_with("DROPPED")));
-        Ok::<String, String>(format!(
-            "{}{}",
-            match r {
-                Ok(Some(true)) => 'T',
-                Ok(Some(false)) => 'F',
-                Ok(None) => 'N',
-                Err(()) => 'X',
-            },
-            if fetched { 'f' } else { 'c' }
-        ))
+        let mut out: Vec<String> = Vec::new();
+        for ti in 0..nt {
+            for mode in 0..MODES.len() {
+                let item = (li * nt + ti) * MODES.len() + mode;
+                if !wanted(item) {
+                    out.push(String::new());
+                    continue;
+                }
+                let t = &toks[ti];
+                m.resolver.clear_cache().await.map_err(|_| "clear_cache".to_string())?;
+                peer.with(|s| {
+                    s.up = true;
+                    s.token = if mode == 3 { None } else { Some(t.clone()) };
+                    s.log.clear();
+                });
+                let now = std::time::SystemTime::now().duration_since(std::time::UNIX_EPOCH).map(|d| d.as_secs()).unwrap_or(0);
+                match mode {
+                    1 => {
+                        edge::plant_row(&dbs, &UserToken::from(t.clone()), now + 300).await?;
+                        peer.with(|s| s.up = false);
+                    }
+                    2 => {
+                        edge::plant_row(&dbs, &UserToken::from(t.clone()), 1).await?;
+                        peer.with(|s| s.up = false);
+                    }
+                    _ => {}
+                }
+                // as a daemon that has just started: it will try to reach the server when it needs to
+                m.resolver.mark_next_check_now(std::time::SystemTime::now()).await;
+                let r = m.resolver.pam_account_allowed(USER, &info).await;
+                let fetched = peer.with(|s| s.log.iter().any(|l| l.contains("/_unix/_token") && !l.starts_with("DROPPED")));
+                out.push(format!(
+                    "{}{}",
+                    match r {
+                        Ok(Some(true)) => 'T',
+                        Ok(Some(false)) => 'F',
+                        Ok(None) => 'N',
+                        Err(()) => 'X',
+                    },
+                    if fetched { 'f' } else { 'c' }
+                ));
+            }
+        }
+        Ok::<String, String>(out.join(","))
     });
-    for suffix in ["", "-wal", "-shm"] {
-        let _ = std::fs::remove_file(format!("{dbs}{suffix}"));
-    }
     match r {
         Ok(s) => s,
         Err(e) => format!("E{e}"),
@@ -344,18 +358,28 @@ pub fn run(args: &[String]) -> ! {
     let n_all = lists.len() * toks.len() * MODES.len();
     let only_b: Option<usize> = ctx.replay.as_ref().and_then(|r| r["case"]["item"].as_u64()).map(|i| i as usize).or(ctx.opt_u64("item").map(|i| i as usize));
     let n_b = if ctx.replay.is_some() && only_b.is_none() { 0 } else { n_all };
-    let res_b: Vec<String> = if let Some(i) = only_b {
-        let one = part_b(&dir, &lists, i);
-        println!("resolver case {i}: {one}");
-        (0..n_all).map(|k| if k == i { one.clone() } else { String::new() }).collect()
-    } else {
+    let wanted = |i: usize| match only_b {
+        Some(o) => i == o,
         // quick: the user tokens without the third group (8 of the 16)
-        let wanted = |i: usize| !quick || (i / MODES.len()) % toks.len() < 8;
-        match fork_map(workers, n_b, |i| if wanted(i) { part_b(&dir, &lists, i) } else { String::new() }) {
-            Ok(r) => r,
-            Err(e) => kv_engine::ctx::machinery_exit(&format!("C45 part B: {e}")),
-        }
+        None => n_b > 0 && (!quick || (i / MODES.len()) % toks.len() < 8),
     };
+    let per_list = match fork_map(workers, lists.len(), |li| part_b(&dir, &lists, li, &wanted)) {
+        Ok(r) => r,
+        Err(e) => kv_engine::ctx::machinery_exit(&format!("C45 part B: {e}")),
+    };
+    let mut res_b: Vec<String> = Vec::new();
+    for (li, r) in per_list.iter().enumerate() {
+        let parts: Vec<&str> = r.split(',').collect();
+        if r.starts_with('E') || parts.len() != toks.len() * MODES.len() {
+            ctx.machinery_error(format!("resolver cases of list {:?}: {r}", lists[li]));
+            res_b.extend((0..toks.len() * MODES.len()).map(|_| String::new()));
+        } else {
+            res_b.extend(parts.iter().map(|x| x.to_string()));
+        }
+    }
+    if let Some(i) = only_b {
+        println!("resolver case {i}: {}", res_b.get(i).cloned().unwrap_or_default());
+    }
     let mut evals_b = 0u64;
     let mut admitted_b = 0u64;
     let mut by_mode = [0u64; 4];
